@@ -75,6 +75,16 @@ def monitor(sc, res):
                         fails.append({"what": f"{desc} changed the modification time of directory {p!r} which did not receive a new ascmhl folder", "replay": sc})
             # ascmhl folders: only in-scope histories, exactly new manifest + chain, nothing else left behind
             wr = M.written_by_hist(io_, at)
+            if op.get("sf"):
+                # histories in scope of `create -sf`: those that contain a named entry (the owner and its ancestors up
+                # to the command root) and those below a named folder
+                roots = O.history_roots(aa)
+                targets = [((at + "/") if at else "") + x.rstrip("/") for x in op["sf"]]
+                scope = {r for r in roots if O.within(r, at) and any(r == "" or t == r or t.startswith(r + "/") or r.startswith(t + "/") for t in targets)}
+                scope.add(at)
+                for h in wr:
+                    if h not in scope:
+                        fails.append({"what": f"{desc} wrote {wr[h][0][0]!r} into the ascmhl folder of history {h!r}, which contains none of the named files and no history that does", "replay": sc})
             for p in set(ab) | set(aa):
                 if ab.get(p) == aa.get(p):
                     continue
